@@ -2,7 +2,8 @@
 (* Bounded layout spaces for PeAuthenticode (C01).  Tier "q": ~1k layouts; "t": tens of       *)
 (* thousands, file lengths hitting every residue mod 8.                                       *)
 EXTENDS PeAuthenticode, Json
-CONSTANT Tier
+CONSTANTS Tier,
+          PBits, PLf    \* the part of the layout space this run enumerates: image kinds, e_lfanew values (the driver runs the parts as parallel TLC processes)
 
 Perms(n) == {p \in [1..n -> 1..n] : \A a, b \in 1..n : a # b => p[a] # p[b]}
 Sizes == IF Tier = "q" THEN {0, 1, 13} ELSE {0, 1, 8, 13}
@@ -20,8 +21,8 @@ Lay(bits, lf, ss, sl, gp, gq, tr, ce, zp, nd) == [ndirs |-> nd, bits |-> bits, l
                                              trail |-> tr, cert |-> ce, zptr |-> zp]
 NDirs(ss, gp) == IF Len(ss) <= 1 /\ gp = 0 THEN (IF Tier = "q" THEN {16, 6} ELSE {16, 6, 10}) ELSE {16}     \* other directory counts on the small layouts
 Layouts(bits) == UNION {{Lay(bits, lf, ss, sl, gp, gq, tr, ce, zp, nd) : zp \in ZPs(ss), nd \in NDirs(ss, gp)} :
-                    lf \in LfaNews, ss \in SecSeqs, sl \in Slacks, tr \in Trails, ce \in Certs, gp \in Gaps, gq \in GapPoss}
-MCInit == \E bits \in {32, 64} : \E i \in Layouts(bits) : Start(i)
+                    lf \in LfaNews \cap PLf, ss \in SecSeqs, sl \in Slacks, tr \in Trails, ce \in Certs, gp \in Gaps, gq \in GapPoss}
+MCInit == \E bits \in PBits : \E i \in Layouts(bits) : Start(i)
 
 (* a few layouts with sections larger than 32 KiB (positional reads cross chunk and part boundaries) *)
 BigSecSeqs == UNION {{[k \in 1..n |-> [size |-> sz[k], fpos |-> p[k]]] : sz \in [1..n -> {0, 32773, 70001}], p \in Perms(n)} : n \in 1..2}
